@@ -374,7 +374,12 @@ class ExprMixin:
         return out
 
     def ev_Await(self, node, st):
-        return self.ev(node.value, st)
+        outs = self.ev(node.value, st)
+        if not isinstance(node.value, ast.Call):
+            # awaiting a task object (not a coroutine call): the task may have been cancelled -> CancelledError
+            for s_, _v in outs:
+                self.raised.append(Outcome("raise", s_.copy(), ExcVal("CancelledError")))
+        return outs
 
     def ev_Lambda(self, node, st):
         return [(st, Closure(node, st.env))]
